@@ -64,10 +64,24 @@ def compute(tier, seed):
                 raise Infra("layout harness re-run failed: " + txt[-2000:])
             rep2, _ = monitor(work, os.path.join(out2, "obs.ndjson"))
             again = set((v["id"], v["p"]) for v in rep2["violations"])
+            # an outcome that depends on which worker gets which pooled buffer does not repeat case by case; a predicate that
+            # is violated in three independent executions of the same cases (whichever cases it hits) is reproduced all the same
+            preds2 = set(v["p"] for v in rep2["violations"])
+            loose = set()
+            wandering = set(v["p"] for v in real if (v["id"], v["p"]) not in again and v["p"] in preds2)
+            if wandering:
+                out3 = os.path.join(work, "rerun3")
+                rc, txt, _ = run([lbin, "-out", out3, "-seed", str(seed), "-tier", tier], timeout=5400, check=False)
+                if rc != 0:
+                    raise Infra("layout harness second re-run failed: " + txt[-2000:])
+                rep3, _ = monitor(work, os.path.join(out3, "obs.ndjson"))
+                loose = wandering & set(v["p"] for v in rep3["violations"])
             for v in real:
                 o = obs[v["id"]]
                 viol.append({"pred": v["p"], "prop": v["p"][:3], "title": "%s case %d varied=%s mut=%s" % (o["class"], o["id"], o["varied"], o["mut"]),
-                             "sig": {"pred": v["p"], "class": o["class"]}, "reproduced": (v["id"], v["p"]) in again,
+                             "sig": {"pred": v["p"], "class": o["class"]}, "reproduced": (v["id"], v["p"]) in again or v["p"] in loose,
+                             "reproduced_how": "same case" if (v["id"], v["p"]) in again else
+                                               ("same predicate in three executions" if v["p"] in loose else "no"),
                              "case": cases.get(v["id"]), "observation": o})
         ids = sorted(obs)
         samples = [{"case": cases[i], "accept": obs[i]["accept"], "rows": obs[i]["rows"], "p_qerr": obs[i]["p_qerr"]} for i in ids[::max(1, len(ids) // 5)]][:5]
